@@ -22,8 +22,8 @@ use std::collections::BTreeMap;
 use std::path::PathBuf;
 
 const ALPHA: [&str; 9] = ["/", ".", "~", "$", ":", "\u{e9}", "\u{65e5}", "\u{1d11e}", "a"];
-const MODES: [u32; 6] = [0, 0o7777, 0o644, 0x7fff_ffff, 0o100777, 0o40000];
-const IDS: [u32; 4] = [0, 1000, 65534, 0x7fff_ffff];
+const MODES: [u32; 7] = [0, 0o7777, 0o644, 0x7fff_ffff, u32::MAX, 0o100777, 0o40000];
+const IDS: [u32; 5] = [0, 1000, 65534, 0x7fff_ffff, u32::MAX];
 const ITER_CAP: usize = 200_000;
 
 // ------------------------------------------------------------------------------------------------ inputs
@@ -152,6 +152,25 @@ struct Ctx {
     bad: u64,
     rebuilds: u64,
     counts: [u64; 4],
+    inflight: String,
+    skip_hang: Vec<(String, String)>,
+    skipped: u64,
+}
+
+fn s_of(v: &Value) -> String {
+    v.as_array().map(|a| a.iter().map(|c| c.as_str().unwrap_or("")).collect::<String>()).unwrap_or_default()
+}
+
+/// named (syntactic, over-approximating) input classes of listed hang findings: `--skip-hang FN:CLASS[,FN:CLASS..]`
+fn hang_class(when: &str, ins: &[&str]) -> bool {
+    let a = ins.first().copied().unwrap_or("").trim_end_matches('/');
+    let b = ins.get(1).copied().unwrap_or("").trim_end_matches('/');
+    match when {
+        // the destination is the source or lies below it
+        "dst-inside-src" => !a.is_empty() && (b == a || (b.starts_with(a) && b[a.len()..].starts_with('/'))),
+        "any" => true,
+        _ => false,
+    }
 }
 
 fn fixture() -> Memfs {
@@ -217,10 +236,27 @@ impl Ctx {
         self.item += 1;
         (self.item - 1) % self.workers == self.worker
     }
+    /// progress slot = "<id>\t<fn>\t<variant>\t<inputs as an ASCII JSON array>"; inputs that do not fit into the slot go to
+    /// the side file <out>.inflight ("@FILE" in the slot) so that the supervisor can always name the in-flight call
     fn mark(&mut self, f: &str, v: &str, ins: &[&str]) {
         self.id += 1;
-        let d = format!("{}\t{}\t{}", f, v, ins.iter().map(|s| short(s)).collect::<Vec<_>>().join("\t"));
+        let mut js = to_ascii_json(&json!(ins));
+        if js.len() > 1300 {
+            let _ = std::fs::write(&self.inflight, js.as_bytes());
+            js = "@FILE".to_string();
+        }
+        let d = format!("{}\t{}\t{}", f, v, js);
         self.prog.mark(self.id, &d);
+    }
+    /// listed hang / runaway classes are exercised on one representative by the orchestrator and skipped here
+    fn skip(&mut self, f: &str, ins: &[&str]) -> bool {
+        for (sf, when) in &self.skip_hang {
+            if sf == f && hang_class(when, ins) {
+                self.skipped += 1;
+                return true;
+            }
+        }
+        false
     }
     /// the instance for the next call; rebuilt when the previous call changed it or failed
     fn fs(&mut self) -> &Memfs {
@@ -267,7 +303,14 @@ impl Ctx {
 
     /// a pure call has returned
     fn post_pure(&mut self, f: &str, v: &str, cls: &str, o: O, e: &str, ins: &[&str], x: Option<&str>) {
+        // plain ok outcomes of pure calls are counted, not logged one by one (unless the validator is asked to compare
+        // the outcome with the PathLex expectation)
+        let keep = self.individual;
+        if o == O::Ok && x.is_none() {
+            self.individual = false;
+        }
         self.emit(f, v, cls, o, e, ins, None, false, true, x);
+        self.individual = keep;
     }
 
     #[allow(clippy::too_many_arguments)]
@@ -320,6 +363,12 @@ impl Ctx {
     // ---------------------------------------------------------------- Memfs through the shared call alphabet
     fn vfs(&mut self, v: &str, c: &Value, ins: &[&str], cls: &str, mutator: bool) {
         let f = c["op"].as_str().unwrap_or("?").to_string();
+        if !self.skip_hang.is_empty() {
+            let args = [s_of(&c["a"]), s_of(&c["b"])];
+            if self.skip(&f, &[args[0].as_str(), args[1].as_str()]) {
+                return;
+            }
+        }
         self.mark(&f, v, ins);
         self.fs();
         let r = ops::apply(self.fs.as_ref().unwrap(), c);
@@ -399,13 +448,14 @@ fn read_scripts() -> Vec<(&'static str, Vec<ROp>)> {
 fn entries_variants() -> Vec<&'static str> {
     vec![
         "", "dirs", "files", "dirs,files", "follow", "follow,max3", "min1", "max0", "min2,max1", "minmax,maxmax", "dirs_first,sort", "files_first,sort", "contents_first",
-        "contents_first,files,min1", "contents_first,dirs_first,follow,max2", "filter,sortrev", "preop-err",
+        "contents_first,files,min1", "contents_first,dirs_first,follow,max2", "filter,sortrev", "preop-err", "preop-panic", "sort-panic", "filter-panic,follow",
     ]
 }
 
 fn run_entries(fs: &Memfs, p: &str, variant: &str) -> Result<(), String> {
     let mut es = fs.entries(p).map_err(|e| err_kind(&e))?;
     let mut filter = false;
+    let mut filter_panic = false;
     for o in variant.split(',') {
         es = match o {
             "dirs" => es.dirs(),
@@ -425,6 +475,14 @@ fn run_entries(fs: &Memfs, p: &str, variant: &str) -> Result<(), String> {
             "sort" => es.sort_by_name(),
             "sortrev" => es.sort(|a, b| b.path().cmp(a.path())),
             "preop-err" => es.pre_op(|e| if e.is_file() { Err(PathError::does_not_exist(e.path()).into()) } else { Ok(()) }),
+            // a panicking CALLER closure: the panic is the caller's own (caught below, reported as an error), but the
+            // instance must stay usable afterwards - the probe tells
+            "preop-panic" => es.pre_op(|e| if e.is_file() { panic!("{}", USER_PANIC) } else { Ok(()) }),
+            "sort-panic" => es.sort(|_, _| panic!("{}", USER_PANIC)),
+            "filter-panic" => {
+                filter_panic = true;
+                es
+            },
             "filter" => {
                 filter = true;
                 es
@@ -432,30 +490,41 @@ fn run_entries(fs: &Memfs, p: &str, variant: &str) -> Result<(), String> {
             _ => es,
         };
     }
-    let mut it = es.into_iter();
-    if filter {
-        it = it.filter_p(|e| !e.is_symlink());
-    }
-    let mut n = 0usize;
-    let mut errs = 0usize;
-    for e in it {
-        n += 1;
-        match e {
-            Ok(e) => {
-                let _ = (e.path().len(), e.alt().len(), e.rel().len(), e.is_dir(), e.is_file(), e.is_symlink(), e.mode(), e.following());
-            },
-            Err(_) => errs += 1,
+    let user = guard(move || -> Result<(), String> {
+        let mut it = es.into_iter();
+        if filter {
+            it = it.filter_p(|e| !e.is_symlink());
         }
-        if n > ITER_CAP {
-            return Err(format!("TIMEOUT: more than {} items yielded", ITER_CAP));
+        if filter_panic {
+            it = it.filter_p(|e| if e.is_file() { panic!("{}", USER_PANIC) } else { true });
         }
-    }
-    if errs > 0 {
-        Err(format!("{} error items of {}", errs, n))
-    } else {
-        Ok(())
+        let mut n = 0usize;
+        let mut errs = 0usize;
+        for e in it {
+            n += 1;
+            match e {
+                Ok(e) => {
+                    let _ = (e.path().len(), e.alt().len(), e.rel().len(), e.is_dir(), e.is_file(), e.is_symlink(), e.mode(), e.following());
+                },
+                Err(_) => errs += 1,
+            }
+            if n > ITER_CAP {
+                return Err(format!("TIMEOUT: more than {} items yielded", ITER_CAP));
+            }
+        }
+        if errs > 0 {
+            Err(format!("{} error items of {}", errs, n))
+        } else {
+            Ok(())
+        }
+    });
+    match user {
+        Ok(r) => r,
+        Err(m) if m == USER_PANIC => Err("caller closure panicked".into()),
+        Err(m) => panic!("{}", m),
     }
 }
+const USER_PANIC: &str = "totality: panic raised by the caller's own closure";
 trait PLen {
     fn len(&self) -> usize;
 }
@@ -826,6 +895,24 @@ fn misc(c: &mut Ctx) {
             c.vfs("sym,recurse", &call_b("chmod_b", target, "", 0, 0, &sym, "sr"), &ins, &cls, true);
         }
     }
+    // the home directory under odd HOME values (restored afterwards; the worker is single threaded)
+    if c.mine() {
+        let longhome = "/x".repeat(3000);
+        for (tag, home) in [("unset", None), ("empty", Some("")), ("tilde", Some("~")), ("relative-mb", Some("\u{e9}/\u{65e5}")), ("var", Some("$HOME")), ("long", Some(longhome.as_str()))] {
+            match home {
+                Some(h) => std::env::set_var("HOME", h),
+                None => std::env::remove_var("HOME"),
+            }
+            let hs = home.unwrap_or("<unset>");
+            let ins = [hs];
+            let cls = class_of(hs);
+            c.pure("sys::home_dir", tag, &ins, &cls, None, || rk(sys::home_dir()));
+            c.pure("sys::expand", &format!("HOME {}", tag), &ins, &cls, None, || rk(sys::expand("~/a")));
+            c.vfs_with("abs", &format!("HOME {}", tag), &ins, &cls, false, |fs| rk(fs.abs("~/a")));
+            c.vfs_with("mkdir_p", &format!("HOME {}", tag), &ins, &cls, true, |fs| rk(fs.mkdir_p("~")));
+            std::env::set_var("HOME", "/a");
+        }
+    }
     // calls without arguments on unusual working directories / roots
     if c.mine() {
         for cwd in ["/", "/a/b", "/\u{e9}", "/a/b/up/b/up", "/a/.a"] {
@@ -836,6 +923,7 @@ fn misc(c: &mut Ctx) {
                 let _ = fs.remove_all(cwd);
                 let _ = fs.abs(".");
                 let _ = fs.mkdir_p("x");
+                let _ = format!("{}", fs).len();
                 rk(fs.cwd())
             });
         }
@@ -883,6 +971,12 @@ fn main() {
         bad: 0,
         rebuilds: 0,
         counts: [0; 4],
+        inflight: format!("{}.inflight", arg_or("out", "/dev/stdout")),
+        skip_hang: arg_or("skip-hang", "").split(',').filter(|x| x.contains(':')).map(|x| {
+            let mut it = x.splitn(2, ':');
+            (it.next().unwrap_or("").to_string(), it.next().unwrap_or("").to_string())
+        }).collect(),
+        skipped: 0,
     };
     let big = vec![0xabu8; 65536];
 
@@ -897,6 +991,7 @@ fn main() {
             "vfs_pair" => vfs_pair(&mut c, &a, &b, 0),
             "pure_single" => pure_single(&mut c, &a, false),
             "pure_pair" => pure_pair(&mut c, &a, &b),
+            "misc" => misc(&mut c),
             op => {
                 let m = arg_u64("m", 0) as u32;
                 let n = arg_u64("n", 0) as u32;
@@ -932,6 +1027,18 @@ fn main() {
     }
     if set == "all" || set == "misc" {
         misc(&mut c);
+    }
+    // every string <= 2 below each kind of existing entry (directory, link to directory, link to an ancestor, file,
+    // link to file, dangling link) and after a home / variable reference that resolves into the tree
+    if set == "all" || set == "vfs" {
+        for pre in ["/a/", "/a/b/", "/\u{e9}/", "/a/b/up/", "/a/a/", "/\u{1d11e}/", "/:/", "~/", "$a/", "${HOME}/b/", "b/../"] {
+            for t in all_strings(&ALPHA, 2) {
+                if c.mine() {
+                    let s = format!("{}{}", pre, t);
+                    vfs_single(&mut c, &s, if thorough { 0 } else { 1 }, &big);
+                }
+            }
+        }
     }
     let pl = pair_list(thorough);
     if set == "all" || set == "pairs" {
@@ -1016,7 +1123,7 @@ fn main() {
         c.out.rec(&json!({"k": "s", "fn": f, "in": cls, "o": o, "n": n.min(2_000_000_000), "probe": if o == "err" { "ok" } else { "-" }, "poisoned": "f", "nw": "t"}));
     }
     c.out.rec(&json!({"k": "m", "calls": c.calls.min(2_000_000_000), "bad": c.bad, "rebuilds": c.rebuilds.min(2_000_000_000), "ok": c.counts[0].min(2_000_000_000),
-                      "err": c.counts[1].min(2_000_000_000), "panic": c.counts[2], "timeout": c.counts[3], "worker": worker}));
+                      "err": c.counts[1].min(2_000_000_000), "panic": c.counts[2], "timeout": c.counts[3], "worker": worker, "skipped": c.skipped}));
     c.prog.mark(c.id + 1, "done\t\t");
     c.out.finish();
 }
